@@ -339,20 +339,20 @@ theorem pgf_step (G : GCtx) (n : Nat) (hPE : ∀ m, m ≤ n → PE G m) (hPSs : 
   cases r1 with
   | error c1 => exact SimGS.of_exprError _ hrel hls h1
   | ok va =>
-    obtain ⟨hfr1, mem1, hrun1, hml1⟩ := h1
+    obtain ⟨hfr1, mem1, ov1, hov1, hrun1, hml1⟩ := h1
     simp only []
     have hsp1 := hsp.world st1 hfr1 hrun1.inv
     have hrel1 : GRel G A env.scopes env.vm st1.scopes mem1 := by rw [hfr1]; exact hrel.memLe hml1
-    have h2 := hPEm A hA b st1 (ip + nI CA.1) (⟨va, none⟩ :: stk) mem1 CA.2 env.scopes env.vm hokb hwb
+    have h2 := hPEm A hA b st1 (ip + nI CA.1) (⟨va, ov1⟩ :: stk) mem1 CA.2 env.scopes env.vm hokb hwb
       (fun x hx => hT x (Or.inr (Or.inr (Or.inl hx)))) (hCB ▸ hplB) hrel1.rel hsp1
     rw [hCB] at h2
     rcases heb : evalExpr G.cfg m b st1 with ⟨r2, st2⟩
     rw [heb] at h2
     cases r2 with
     | error c2 =>
-      exact SimGS.of_exprError _ hrel hls (SimGE.error_after (nI CB.1) [⟨va, none⟩] hrun1 hfr1 hml1 h2)
+      exact SimGS.of_exprError _ hrel hls (SimGE.error_after (nI CB.1) [⟨va, ov1⟩] hrun1 hfr1 hml1 h2)
     | ok vb =>
-      obtain ⟨hfr2, mem2, hrun2, hml2⟩ := h2
+      obtain ⟨hfr2, mem2, ov2, hov2, hrun2, hml2⟩ := h2
       simp only []
       have hfr02 : st2 = { spec with out := st2.out, heap := st2.heap } := frame_trans hfr1 hfr2
       have hsp2 := hsp.world st2 hfr02 (fun hi => hrun2.inv (hrun1.inv hi))
@@ -372,7 +372,7 @@ theorem pgf_step (G : GCtx) (n : Nat) (hPE : ∀ m, m ≤ n → PE G m) (hPSs : 
       obtain ⟨elems0, helems0⟩ : ∃ es, es = (rangeElems xa xb incl).map Val.int := ⟨_, rfl⟩
       rw [← helems0]
       have hrange := Runs.of_exec1 (fr := G.fr) (mem := mem2) (fun it_ k => mkS_intoRange G.code G.lim (withIt G.s it_) A.fn
-        (ip + nI CA.1 + nI CB.1) A.rest A.mp k stk mem2.cells st2.world A.c hA.code rsp incl xa xb none none irange)
+        (ip + nI CA.1 + nI CB.1) A.rest A.mp k stk mem2.cells st2.world A.c hA.code rsp incl xa xb ov2 ov1 irange)
       have hclone := Runs.of_exec1 (fr := G.fr) (mem := mem2) (fun it_ k => mkS_clone_range G.code G.lim (withIt G.s it_) A.fn
         (ip + nI CA.1 + nI CB.1 + 1) A.rest A.mp k stk mem2.cells st2.world A.c hA.code sp incl xa xb none iclone)
       have hiter : Runs G.fr G.code G.lim G.s A.fn A.rest A.mp (ip + nI CA.1 + nI CB.1 + 1 + 1)
@@ -613,9 +613,9 @@ theorem pgf_step (G : GCtx) (n : Nat) (hPE : ∀ m, m ≤ n → PE G m) (hPSs : 
                 refine hnext mem3 hml3 hfr3 hrun3 ⟨?_, hsr3.2⟩
                 have := hsr3.1; rwa [List.drop_one] at this
               case ret v =>
-                obtain ⟨hrt, hfr3, mem3, hrun3, hml3⟩ := hPS
+                obtain ⟨hrt, hfr3, mem3, o3, ho3, hrun3, hml3⟩ := hPS
                 obtain ⟨hml, _, _, _⟩ := hmk mem3 hml3
-                exact ⟨hrt, hfr1' hfr3, mem3, hpreB.trans hrun3, hml⟩
+                exact ⟨hrt, hfr1' hfr3, mem3, o3, ho3, hpreB.trans hrun3, hml⟩
               case fatal kd fm fsp => exact fun hk => hpreB.fatal (hPS hk)
               case unsupported => trivial
               case timeout => trivial
